@@ -602,6 +602,16 @@ func Spin() {
 	}
 }
 
+// SleepDur is applied to the argument of every time.Sleep of instrumented code: inside a simulation a sleep of
+// zero or negative length lasts one virtual nanosecond (on a real machine the call itself takes time; the fake
+// clock only moves when every thread is blocked).
+func SleepDur(d time.Duration) time.Duration {
+	if d <= 0 && cur.Load() != nil {
+		return time.Nanosecond
+	}
+	return d
+}
+
 // Y is a statement-level yield point.
 func Y(site int32) {
 	s := cur.Load()
